@@ -44,6 +44,9 @@ FishEscapeDouble(s) == Rep1(Rep1(s, DQ, <<BS, DQ>>), DOL, <<BS, DOL>>)      \* v
 ZshEscapeHelp(s) ==
   Rep1(Rep1(Rep1(Rep1(Rep1(Rep1(Rep1(Rep1(s, BS, <<BS, BS>>), SQ, <<SQ, BS, SQ, SQ>>), LB, <<BS, LB>>), RB, <<BS, RB>>),
        COL, <<BS, COL>>), DOL, <<BS, DOL>>), BT, <<BS, BT>>), NL, <<SP>>)
+\* zsh.rs write_positionals_of: the help of a positional, `':name -- HELP:action'`, is escaped by its own chain of
+\* replacements (no backslash doubling, `$`, backtick or newline handling)
+ZshPosEscape(s) == Rep1(Rep1(Rep1(Rep1(s, LB, <<BS, LB>>), RB, <<BS, RB>>), SQ, <<SQ, BS, SQ, SQ>>), COL, <<BS, COL>>)
 PsQ(k) == <<226, 128, k>>
 PsEscapeString(s) == Rep(Rep(Rep(Rep(Rep1(s, SQ, <<SQ, SQ>>), PsQ(153), <<SQ>> \o PsQ(153)), PsQ(152), <<SQ>> \o PsQ(152)),
                          PsQ(154), <<SQ>> \o PsQ(154)), PsQ(155), <<SQ>> \o PsQ(155))
@@ -51,10 +54,11 @@ PsEscapeHelp(s) == PsEscapeString(Rep1(s, NL, <<SP>>))
 ElvEscapeHelp(s) == Rep1(Rep1(s, NL, <<SP>>), SQ, <<SQ, SQ>>)
 NuSingleLine(s) == Rep1(s, NL, <<SP>>)
 
-\* what a (shell, slot) emits for text s; slots: "about" (subcommand about), "help" (argument help), "pvhelp" (possible-value help)
+\* what a (shell, slot) emits for text s; slots: "about" (subcommand about), "help" (option help), "pvhelp" (possible-value help), "poshelp" (positional help)
 Emitted(shell, slot, s) ==
   CASE shell = "fish" -> IF slot = "pvhelp" THEN FishEscapeDouble(FishEscapeHelp(s)) ELSE FishEscapeHelp(s)
-    [] shell = "zsh" -> IF slot = "pvhelp" THEN Rep1(ZshEscapeHelp(s), DQ, <<BS, DQ>>) ELSE ZshEscapeHelp(s)
+    [] shell = "zsh" -> IF slot = "pvhelp" THEN Rep1(ZshEscapeHelp(s), DQ, <<BS, DQ>>)
+                        ELSE IF slot = "poshelp" THEN ZshPosEscape(s) ELSE ZshEscapeHelp(s)
     [] shell = "powershell" -> PsEscapeHelp(s)
     [] shell = "elvish" -> ElvEscapeHelp(s)
     [] shell = "nushell" -> NuSingleLine(s)
@@ -62,6 +66,7 @@ Emitted(shell, slot, s) ==
 HasSlot(shell, slot) ==
   CASE shell = "bash" -> FALSE
     [] slot = "pvhelp" -> shell \in {"fish", "zsh"}
+    [] slot = "poshelp" -> shell \in {"zsh", "nushell"}      \* the other generators do not write positionals
     [] OTHER -> TRUE
 
 \* ---- lexer automata: [st, leak] over the emitted bytes ------------------------------------
@@ -119,6 +124,15 @@ SpecRun(v, i, closer) ==      \* TRUE iff the text leaks out of its field
   ELSE IF v[i] = closer THEN TRUE
   ELSE SpecRun(v, i + 1, closer)
 
+\* the message field of a positional spec `n:message:action` ends at an unquoted `:`; a backslash left at the very end
+\* quotes the generator's own separator
+RECURSIVE SpecRunT(_, _, _)
+SpecRunT(v, i, closer) ==
+  IF i > Len(v) THEN FALSE
+  ELSE IF v[i] = BS THEN (IF i = Len(v) THEN TRUE ELSE SpecRunT(v, i + 2, closer))
+  ELSE IF v[i] = closer THEN TRUE
+  ELSE SpecRunT(v, i + 1, closer)
+
 \* PowerShell single-quoted string: two consecutive quote characters are one literal quote
 RECURSIVE PsRun(_, _, _, _)
 PsRun(s, i, st, leak) ==
@@ -155,6 +169,7 @@ Judge(shell, slot, e) ==
          ELSE LET v == ZshUnquote(e, 1, "S") IN
               IF slot = "help" /\ SpecRun(v, 1, RB) THEN "stage2"
               ELSE IF slot = "pvhelp" /\ SpecRun(v, 1, DQ) THEN "stage2"
+              ELSE IF slot = "poshelp" /\ SpecRunT(v, 1, COL) THEN "stage2"
               ELSE "ok"
     [] shell = "powershell" -> LET r == PsRun(e, 1, "S", FALSE) IN IF r.leak \/ r.st # "S" THEN "stage1" ELSE "ok"
     [] shell = "elvish" -> LET r == ElvRun(e, 1, "S", FALSE) IN IF r.leak \/ r.st # "S" THEN "stage1" ELSE "ok"
